@@ -187,3 +187,39 @@ func TestC20_RegressF12g_GrowCanonicalBitReverse(t *testing.T) {
 		}
 	})
 }
+
+// F12i: GetCoeff moves an entry by (len/size)*shift positions (integer division) while the shift refers to
+// w = fft.Generator(size), of order NextPowerOfTwo(size) (what Evaluate uses): for a size that is not a power of
+// two on a vector with len/size != len/NextPowerOfTwo(size) GetCoeff returns entries of another polynomial
+// (size 5 on 16 entries: 3 positions per unit shift instead of 2). Probe when the finding is listed as known,
+// regression test otherwise.
+func TestC20_RegressF12i_GetCoeffRhoSizeNotPowerOfTwo(t *testing.T) {
+	forIops(t, func(t *testing.T, c *cx) {
+		bad := ""
+		for _, sz := range [][2]int{{5, 16}, {3, 16}, {6, 32}, {12, 64}} {
+			sh, _ := regressPoly(c, sz[0])
+			for _, f := range allForms[2:4] {
+				lib := c.I.NewPoly(sh.entries(f, sz[1]), f)
+				lib.SetSize(sz[0])
+				m := &model{shared: sh, lib: lib, form: f, n: sz[1]}
+				for _, k := range []int{1, -1, sz[0], 7} {
+					lib.Shift(k)
+					want, _ := m.wantCoeff(0, k)
+					// Evaluate of the same object is the arbiter of what Shift(k) means
+					m.checkEval(t, bi(12345), k, "random")
+					lib.Shift(k)
+					if got := lib.GetCoeff(0); got.Cmp(want) != 0 && bad == "" {
+						bad = fmt.Sprintf("size=%d len=%d %s Shift(%d): GetCoeff(0)=%s, p(w^%d)=%s", sz[0], sz[1], f, k, hx(got), k, hx(want))
+					}
+					rep.Case("C20_Regress", fmt.Sprintf("%s F12i size=%d len=%d %s shift=%d", c.I.Name(), sz[0], sz[1], f, k), true, "F12i")
+				}
+			}
+		}
+		switch {
+		case bad != "" && rep.Known("C20", keyF12i):
+			rep.StillPresent("C20", keyF12i, c.I.Name()+": "+bad)
+		case bad != "":
+			t.Fatalf("C20: %s", bad)
+		}
+	})
+}
